@@ -15,7 +15,7 @@ ID = "C09"
 RULE = (
     "contest sets = every single contest and every unordered pair drawn from {polling plurality (2 assertions), comparison "
     "plurality (2 assertions, shrink-truncate), comparison super-majority (Kaplan-Kolmogorov), ONEAudit plurality (aGRAPA "
-    "betting), polling IRV (2 JSON assertions)} x every assignment of distinct risk limits from {0.05,0.2,0.5}; operation "
+    "betting), polling IRV (2 JSON assertions)}, and each of these beside an IRV contest with an empty assertion list (no demand on that contest's own max_p; the audit-wide figure is the largest p-value of any assertion, as set_p_values documents), x every assignment of distinct risk limits from {0.05,0.2,0.5}; operation "
     "alphabet {set_p_values(sample_k) for 5 fixed samples, summarize_status, reset_p_values}; breadth-first search over all "
     "operation sequences to the depth bound, replayed on fresh objects, states de-duplicated on the canonical tuple (per "
     "assertion p, history, proved; per contest max_p, p_values, proved).  After every operation the whole state is compared "
@@ -28,7 +28,7 @@ ASSUMPTIONS = [
     "the twin test is a fresh NonnegMean with the contest's configuration, fed the output of the assertion's own mvrs_to_data (whose correctness is C06's business)",
     "stdout of summarize_status is captured and ignored",
 ]
-REQUIRE_VAC = ["risk_limit_at_or_next_to_measured_risk", "states_some_but_not_all_confirmed", "failing_assertion_in_looser_contest", "proved_but_currently_above_limit", "summarize_true", "summarize_false", "resets_after_evidence"]
+REQUIRE_VAC = ["risk_limit_at_or_next_to_measured_risk", "states_some_but_not_all_confirmed", "failing_assertion_in_looser_contest", "proved_but_currently_above_limit", "summarize_true", "summarize_false", "resets_after_evidence", "empty_contest_beside_confirmed_one", "empty_contest_beside_partly_confirmed_one"]
 LIMITS = [0.05, 0.2, 0.5]
 N = 20
 
@@ -39,6 +39,10 @@ KINDS = {
     "k4": dict(choice=Contest.SOCIAL_CHOICE_FUNCTION.PLURALITY, audit=Audit.AUDIT_TYPE.ONEAUDIT, test=NonnegMean.betting_mart, estim=None, bet=NonnegMean.agrapa, kw={"lam": 0.5}),
     "k5": dict(choice=Contest.SOCIAL_CHOICE_FUNCTION.IRV, audit=Audit.AUDIT_TYPE.POLLING, test=NonnegMean.alpha_mart, estim=None, bet=None, kw={"eta": 0.8}),
 }
+# an IRV contest whose assertion list is empty (nothing to confirm): it must neither block completion nor raise the
+# audit-wide measured risk, which set_p_values documents as the "largest p-value for any assertion in any contest"
+KINDS["k0"] = dict(KINDS["k5"])
+EMPTY = {"k0"}
 # wide plurality contests: 12 and 28 candidates, i.e. 11 and 27 assertions (more than any fixed small list holds)
 WIDE = {"w12": 12, "w28": 28}
 for _k, _n in WIDE.items():
@@ -60,7 +64,7 @@ OPS = list(SAMPLES) + ["summarize", "reset"]
 
 
 def bounds(tier):
-    return {"contest_sets": "5 singles + 10 pairs + 2 wide single contests (11 and 27 assertions)" + (" + 10 triples" if tier == "thorough" else ""), "risk_limits": LIMITS, "ops": OPS, "depth": 3 if tier == "quick" else 4, "population_cards": N}
+    return {"contest_sets": "5 singles + 10 pairs + 10 pairs with a contest that has no assertions + 2 wide single contests (11 and 27 assertions)" + (" + 10 triples" if tier == "thorough" else ""), "risk_limits": LIMITS, "ops": OPS, "depth": 3 if tier == "quick" else 4, "population_cards": N}
 
 
 _LAST = {}
@@ -78,10 +82,10 @@ def last_loser(k):
 def card_votes(kind_of_vote):
     """votes on a card for all contests, for vote pattern in {win, lose, blank}"""
     if kind_of_vote == "win":
-        return {"k1": {"A": True}, "k2": {"A": True}, "k3": {"A": True}, "k4": {"A": True}, "k5": {"A": 1, "B": 2, "C": 3}, "w12": {"A": True}, "w28": {"A": True}}
+        return {"k1": {"A": True}, "k2": {"A": True}, "k3": {"A": True}, "k4": {"A": True}, "k5": {"A": 1, "B": 2, "C": 3}, "k0": {"A": 1, "B": 2}, "w12": {"A": True}, "w28": {"A": True}}
     if kind_of_vote == "lose":  # in the wide contests the vote goes to the LAST candidate, so the last-listed assertion is the weak one
-        return {"k1": {"B": True}, "k2": {"C": True}, "k3": {"B": True}, "k4": {"B": True}, "k5": {"B": 1, "C": 2}, "w12": {last_loser("w12"): True}, "w28": {last_loser("w28"): True}}
-    return {"k1": {}, "k2": {}, "k3": {}, "k4": {}, "k5": {}, "w12": {}, "w28": {}}
+        return {"k1": {"B": True}, "k2": {"C": True}, "k3": {"B": True}, "k4": {"B": True}, "k5": {"B": 1, "C": 2}, "k0": {"C": 1}, "w12": {last_loser("w12"): True}, "w28": {last_loser("w28"): True}}
+    return {"k1": {}, "k2": {}, "k3": {}, "k4": {}, "k5": {}, "k0": {}, "w12": {}, "w28": {}}
 
 
 def make_sample(name):
@@ -101,9 +105,9 @@ def make_contests(cset, limits):
         K = KINDS[k]
         d[k] = {"name": k, "risk_limit": lim, "cards": N, "choice_function": K["choice"], "n_winners": 1,
                 "share_to_win": 2 / 3 if K["choice"] == Contest.SOCIAL_CHOICE_FUNCTION.SUPERMAJORITY else None,
-                "candidates": (["A"] + [f"Z{i}" for i in range(1, WIDE[k])]) if k in WIDE else ["A", "B", "C"], "winner": ["A"], "assertion_file": "x" if k == "k5" else None, "audit_type": K["audit"],
+                "candidates": (["A"] + [f"Z{i}" for i in range(1, WIDE[k])]) if k in WIDE else ["A", "B", "C"], "winner": ["A"], "assertion_file": "x" if k in ("k5", "k0") else None, "audit_type": K["audit"],
                 "test": K["test"], "estim": K["estim"], "bet": K["bet"], "test_kwargs": dict(K["kw"]), "g": 0.1, "use_style": True,
-                "sample_size": 100, "sample_threshold": 10 ** 9, "tally": None, "assertion_json": IRV_JSON if k == "k5" else None}
+                "sample_size": 100, "sample_threshold": 10 ** 9, "tally": None, "assertion_json": IRV_JSON if k == "k5" else [] if k == "k0" else None}
     cons = Contest.from_dict_of_dicts(d)
     Assertion.make_all_assertions(cons)
     for k, con in cons.items():
@@ -175,7 +179,7 @@ def judge_history(cset, limits, hist, feats=None):
         if op == "reset":
             for key in model:
                 model[key] = [1.0, (), False]
-            cmax = {k: 1.0 for k in names}
+            cmax = {k: 1.0 if names[k] else None for k in names}
             if ret is not True:
                 out.append(("C09|reset|return", f"reset_p_values returned {ret!r}"))
         elif op == "summarize":
@@ -193,9 +197,9 @@ def judge_history(cset, limits, hist, feats=None):
                     p2, h2, u_installed, u_ret = twin[(k, a)]
                     prev_proved = model[(k, a)][2]
                     model[(k, a)] = [p2, h2, (p2 <= lim[k]) or prev_proved]
-                cmax[k] = max(model[(k, a)][0] for a in names[k])
-            want_ret = max(cmax[k] for k in names)
-            if float(ret) != want_ret:
+                cmax[k] = max(model[(k, a)][0] for a in names[k]) if names[k] else None  # no demand on an empty contest's own figure
+            want_ret = max([cmax[k] for k in names if names[k]], default=None)
+            if want_ret is not None and float(ret) != want_ret:
                 out.append(("C09|set_p_values|return", f"set_p_values returned {ret} but the largest p-value over all contests is {want_ret}"))
         # compare the whole state
         for k, rl, asns, max_p, pvals, proved in snap:
@@ -218,11 +222,15 @@ def judge_history(cset, limits, hist, feats=None):
         inl = [(model[(k, a)][0] <= lim[k]) for k in names for a in names[k]]
         if any(inl) and not all(inl):
             feats.add("states_some_but_not_all_confirmed")
+            if EMPTY & set(cset):
+                feats.add("empty_contest_beside_partly_confirmed_one")
             if len(cset) >= 2:
                 loose = max(cset, key=lambda k: lim[k])
                 if any(model[(loose, a)][0] > lim[loose] for a in names[loose]) and all(
                         model[(k, a)][0] <= lim[k] for k in names if k != loose for a in names[k]):
                     feats.add("failing_assertion_in_looser_contest")
+        if EMPTY & set(cset) and inl and all(inl):
+            feats.add("empty_contest_beside_confirmed_one")
         if any(model[key][2] and model[key][0] > lim[key[0]] for key in model):
             feats.add("proved_but_currently_above_limit")
         if hist and hist[-1] == "reset" and any(op in SAMPLES for op in hist[:-1]):
@@ -237,7 +245,11 @@ def judge_history(cset, limits, hist, feats=None):
 
 
 def configs(tier="quick"):
-    ks = [k for k in KINDS if k not in WIDE]
+    ks = [k for k in KINDS if k not in WIDE and k not in EMPTY]
+    for k in ks:  # the contest without assertions beside every other kind, tighter and looser than it, listed first and last
+        for la, lb in itertools.permutations(LIMITS, 2):
+            yield ("k0", k), (la, lb)
+            yield (k, "k0"), (la, lb)
     for k in WIDE:
         for l in LIMITS:
             yield (k,), (l,)
@@ -324,7 +336,7 @@ def run_shard(sh, rec):
 
 def explore(tier, seed):
     depth = 3 if tier == "quick" else 4
-    return core.pmap(run_shard, [("boundary", k) for k in KINDS if k not in WIDE] + [(c, l, depth) for c, l in configs(tier)], seed, progress="C09")
+    return core.pmap(run_shard, [("boundary", k) for k in KINDS if k not in WIDE and k not in EMPTY] + [(c, l, depth) for c, l in configs(tier)], seed, progress="C09")
 
 
 def run_case(case):
